@@ -4,11 +4,19 @@ package main
 
 import (
 	"go/constant"
+	"go/token"
 	"sort"
+	"strings"
+
+	"golang.org/x/tools/go/ssa"
 )
 
 type Acts struct {
 	m map[string]uint32
+	// literal constants a height is compared with, and moduli it is reduced by, anywhere on the
+	// consensus path: they delimit height classes too, so representatives are generated around them
+	extraConsts []uint32
+	moduli      []uint32
 }
 
 var actNames = []string{"PegnetActivation", "GradingV2Activation", "TransactionConversionActivation", "PEGPricingActivation",
@@ -35,7 +43,91 @@ func (c *Ctx) activations() *Acts {
 	} else {
 		die(2, "unresolved anchor: initial value of fat2.Fat2RCDEActivation")
 	}
+	a.extraConsts, a.moduli = c.heightLiterals()
 	return a
+}
+
+// heightLike: the value is a block height (parameter or field) possibly offset by a constant / converted.
+func heightLike(v ssa.Value, depth int) bool {
+	if depth > 4 {
+		return false
+	}
+	switch x := v.(type) {
+	case *ssa.Parameter:
+		n := strings.ToLower(x.Name())
+		return strings.Contains(n, "height") && isIntType(x.Type())
+	case *ssa.Convert:
+		return heightLike(x.X, depth+1)
+	case *ssa.BinOp:
+		if x.Op == token.ADD || x.Op == token.SUB {
+			if _, ok := x.Y.(*ssa.Const); ok {
+				return heightLike(x.X, depth+1)
+			}
+		}
+	case *ssa.UnOp:
+		if x.Op == token.MUL {
+			tp := typePath(x)
+			return strings.HasSuffix(tp, ".Height") || tp == "pegnet.BlockSync.Synced"
+		}
+	case *ssa.Phi:
+		return strings.Contains(strings.ToLower(x.Comment), "height")
+	}
+	return false
+}
+
+// heightLiterals scans the consensus path for integer literals compared with a height and for moduli.
+func (c *Ctx) heightLiterals() (consts, moduli []uint32) {
+	cs, ms := map[uint32]bool{}, map[uint32]bool{}
+	scope := map[*ssa.Function]bool{}
+	for f := range c.RSync {
+		scope[f] = true
+	}
+	for _, f := range c.Funcs {
+		if f.Pkg != nil && (f.Pkg.Pkg.Name() == "fat2" || f.Pkg.Pkg.Name() == "conversions") {
+			scope[f] = true
+		}
+	}
+	for f := range scope {
+		allInstrs(f, func(ins ssa.Instruction) {
+			bo, ok := ins.(*ssa.BinOp)
+			if !ok {
+				return
+			}
+			var k *ssa.Const
+			var other ssa.Value
+			if kc, ok := bo.Y.(*ssa.Const); ok {
+				k, other = kc, bo.X
+			} else if kc, ok := bo.X.(*ssa.Const); ok {
+				k, other = kc, bo.Y
+			}
+			if k == nil || k.Value == nil || k.Value.Kind() != constant.Int || !heightLike(other, 0) {
+				return
+			}
+			v, ok := constant.Uint64Val(k.Value)
+			if !ok || v > 1<<31 {
+				return
+			}
+			switch bo.Op {
+			case token.EQL, token.NEQ, token.LSS, token.LEQ, token.GTR, token.GEQ:
+				if v >= 1000 {
+					cs[uint32(v)] = true
+				}
+			case token.REM, token.QUO:
+				if v > 1 {
+					ms[uint32(v)] = true
+				}
+			}
+		})
+	}
+	for v := range cs {
+		consts = append(consts, v)
+	}
+	for v := range ms {
+		moduli = append(moduli, v)
+	}
+	sort.Slice(consts, func(i, j int) bool { return consts[i] < consts[j] })
+	sort.Slice(moduli, func(i, j int) bool { return moduli[i] < moduli[j] })
+	return
 }
 
 func (a *Acts) get(n string) uint32 {
@@ -54,6 +146,12 @@ func (a *Acts) reps(thorough bool) []uint32 {
 	var vals []uint32
 	seen := map[uint32]bool{}
 	for _, v := range a.m {
+		if !seen[v] {
+			seen[v] = true
+			vals = append(vals, v)
+		}
+	}
+	for _, v := range a.extraConsts {
 		if !seen[v] {
 			seen[v] = true
 			vals = append(vals, v)
@@ -81,6 +179,18 @@ func (a *Acts) reps(thorough bool) []uint32 {
 			m += 144
 		}
 		set[lo+(hi-lo)/2|1] = true
+		// other moduli found in the code: first multiples inside the interval
+		for _, md := range a.moduli {
+			if md == 144 {
+				continue
+			}
+			m := (lo/md + 1) * md
+			for k := 0; k < 2 && m < hi; k++ {
+				set[m] = true
+				set[m+1] = true
+				m += md
+			}
+		}
 	}
 	var out []uint32
 	for h := range set {
